@@ -6,7 +6,7 @@
    = unused_sound (UnusedProofs / Stage2Unused) composed with remove_preserves_trace (RemoveProofs). *)
 From Coq Require Import NArith List Bool Arith Lia.
 From Verif Require Import Scope.PySyntax Scope.Finder Scope.PySem Scope.Fragment Scope.AuxProofs Scope.FinderProofs
-                          Scope.UnusedProofs Scope.Remove Scope.RemoveProofs Scope.Stage2Unused.
+                          Scope.UnusedProofs Scope.Remove Scope.RemoveProofs Scope.Stage2Unused Scope.Stage3Erase.
 Import ListNotations.
 
 (* the removal set tidy-imports derives from the report: is (l, i) one of the reported (line, import) pairs *)
@@ -47,96 +47,211 @@ Proof.
   apply in_report_In in E. exact (u2_unused_sound bi ns p Hu Hsf Ho Hnd l i E ln n Hread).
 Qed.
 
+Theorem tidy_remove_preserves_trace_stage3 : forall bi ns p, u3_block p = true -> star_free bi ns = true ->
+  imports_once bi ns p = true -> NoDup (imp_events (bsrcs_block false p)) ->
+  pysem bi ns (tidy_remove bi ns p) = pysem bi ns p /\
+  forall x b, lookup_b x (final_globals bi ns p) = Some b -> removed_src (in_report (snd (finder bi ns true p))) b = false ->
+              lookup_b x (final_globals bi ns (tidy_remove bi ns p)) = Some b.
+Proof.
+  intros bi ns p Hu Hsf Ho Hnd. apply remove_preserves_trace.
+  intros ln n l i Hread. destruct (in_report (snd (finder bi ns true p)) l i) eqn:E; auto. exfalso.
+  apply in_report_In in E. exact (u3_unused_sound bi ns p Hu Hsf Ho Hnd l i E ln n Hread).
+Qed.
+
 (* ---------- what fix_unused_and_missing_imports really calls: scan_for_import_issues(parse_docstrings=True).
-   On programs without a docstring statement (both fragments) it is the same report. ---------- *)
+   On programs whose docstring / string statements hold no doctest example and no {brace} identifier (both fragments
+   allow only those) it is the same report, and the trace with doctests is the trace. ---------- *)
 Lemma with_unused_id : forall s, with_unused s (unused s) = s.
 Proof. intros []; reflexivity. Qed.
 
-Lemma nodoc_finder : forall bi ns p, docstrings_of p = [] -> brace_ids p = [] ->
+Definition plain_doc (d : docstring) : Prop := fst d = [].
+Lemma plain_examples : forall l, Forall plain_doc l -> flat_map fst l = [].
+Proof. induction l as [|d l IH]; intro H. reflexivity. inversion H as [|? ? Hd Hl]; subst. cbn. rewrite Hd. apply IH. exact Hl. Qed.
+
+Lemma nodoc_finder : forall bi ns p, Forall plain_doc (docstrings_of p) -> brace_ids p = [] ->
   snd (finder_doc bi ns p) = snd (finder bi ns true p).
 Proof.
   intros bi ns p Hd Hb. unfold finder_doc, finder. destruct (init_state bi ns) as [stk s0].
-  rewrite Hd, Hb. cbn [flat_map fold_left snd]. rewrite with_unused_id. reflexivity.
+  rewrite (plain_examples _ Hd), Hb. cbn [flat_map fold_left snd]. rewrite with_unused_id. reflexivity.
+Qed.
+Lemma nodoc_pysem : forall bi ns p, Forall plain_doc (docstrings_of p) -> pysem_doc bi ns p = pysem bi ns p.
+Proof.
+  intros bi ns p Hd. unfold pysem_doc. induction (docstrings_of p) as [|d l IH]. apply app_nil_r.
+  inversion Hd as [|? ? H1 H2]; subst. cbn [flat_map]. unfold sem_docstring at 1. rewrite H1. cbn [sem_block snd app]. apply IH. exact H2.
 Qed.
 
-Lemma epydoc_nil : forall l, Forall (fun x => doc_of x = []) l -> epydoc l = [].
+Lemma Forall_app' : forall A (P : A -> Prop) a b, Forall P a -> Forall P b -> Forall P (a ++ b).
+Proof. intros. apply Forall_app. auto. Qed.
+
+Lemma epydoc_plain : forall l, Forall (fun x => Forall plain_doc (doc_of x)) l -> Forall plain_doc (epydoc l).
 Proof.
-  induction l as [|a l IH]; intro H. reflexivity. inversion H as [|? ? Ha Hl]; subst.
-  destruct l as [|b r]. reflexivity. cbn [epydoc]. inversion Hl as [|? ? Hb Hr]; subst.
-  rewrite Hb. destruct (is_assign a); cbn [app]; apply IH; exact Hl.
+  induction l as [|a l IH]; intro H. constructor. inversion H as [|? ? Ha Hl]; subst.
+  destruct l as [|b r]. constructor. cbn [epydoc]. inversion Hl as [|? ? Hb Hr]; subst.
+  apply Forall_app'. destruct (is_assign a). exact Hb. constructor. apply IH. exact Hl.
 Qed.
-Lemma container_nil : forall l, Forall (fun x => doc_of x = []) l -> container_docs l = [].
+Lemma container_plain : forall l, Forall (fun x => Forall plain_doc (doc_of x)) l -> Forall plain_doc (container_docs l).
 Proof.
-  intros [|x r] H. reflexivity. inversion H as [|? ? Hx Hr]; subst. cbn [container_docs]. rewrite Hx. apply epydoc_nil. exact Hr.
+  intros [|x r] H. constructor. inversion H as [|? ? Hx Hr]; subst. cbn [container_docs]. apply Forall_app'. exact Hx. apply epydoc_plain. exact Hr.
 Qed.
-Lemma s2_doc_of : forall x, s2_stmt x = true -> doc_of x = [].
-Proof. intros [] H; try reflexivity. discriminate. Qed.
-Lemma s2_block_doc_of : forall l, s2_block l = true -> Forall (fun x => doc_of x = []) l.
+
+(* ---------- stage 2 ---------- *)
+Lemma s2_doc_of : forall x, s2_stmt x = true -> Forall plain_doc (doc_of x) /\ (forall ln ex br, x = SDoc ln ex br -> br = []).
+Proof.
+  intros [] H; cbn [doc_of]; try (split; [constructor|intros; discriminate]).
+  cbn [s2_stmt] in H. apply andb_true_iff in H as [H1 H2]. apply is_nil_true in H1, H2. subst. split.
+  constructor. reflexivity. constructor. intros ln0 ex br E. injection E as _ _ <-. reflexivity.
+Qed.
+Lemma s2_block_doc_of : forall l, s2_block l = true -> Forall (fun x => Forall plain_doc (doc_of x)) l.
 Proof.
   induction l as [|x l IH]; intro H. constructor. cbn in H. apply andb_true_iff in H as [H1 H2].
-  constructor. apply s2_doc_of. exact H1. apply IH. exact H2.
+  constructor. apply (s2_doc_of x H1). apply IH. exact H2.
 Qed.
 
-Definition NoDocS (x : stmt) : Prop := s2_stmt x = true -> docs_stmt x = [] /\ strings_stmt x = [].
-Lemma nodoc_block : forall l, Forall NoDocS l -> s2_block l = true ->
-  (fix nested (l : list stmt) : list docstring := match l with [] => [] | x :: r => docs_stmt x ++ nested r end) l = [] /\
+Definition NoDocs2 (x : stmt) : Prop := s2_stmt x = true -> Forall plain_doc (docs_stmt x) /\ strings_stmt x = [].
+Lemma nodoc_blocks2 : forall l, Forall NoDocs2 l -> s2_block l = true ->
+  Forall plain_doc ((fix nested (l : list stmt) : list docstring := match l with [] => [] | x :: r => docs_stmt x ++ nested r end) l) /\
   (fix nested (l : list stmt) : list name := match l with [] => [] | x :: r => strings_stmt x ++ nested r end) l = [].
 Proof.
-  induction l as [|x l IH]; intros HF Hs. split; reflexivity.
+  induction l as [|x l IH]; intros HF Hs. split. constructor. reflexivity.
   inversion HF as [|? ? Hx HF']; subst. cbn in Hs. apply andb_true_iff in Hs as [H1 H2].
-  destruct (Hx H1) as [A B]. destruct (IH HF' H2) as [C D]. rewrite A, B, C, D. split; reflexivity.
+  destruct (Hx H1) as [A B]. destruct (IH HF' H2) as [C D]. split. apply Forall_app'; assumption. rewrite B, D. reflexivity.
 Qed.
 Lemma s2_blk_fix' : forall l,
   (fix blk (l : list stmt) : bool := match l with [] => true | y :: r => s2_stmt y && blk r end) l = s2_block l.
 Proof. reflexivity. Qed.
 
-Lemma nodoc_stmt : forall x, NoDocS x.
+Lemma nodoc_stmts2 : forall x, NoDocs2 x.
 Proof.
-  induction x using stmt_ind'; intro Hs; try (split; reflexivity); try discriminate.
+  induction x using stmt_ind'; intro Hs; try (split; [constructor|reflexivity]); try discriminate.
   - (* SDef *) cbn [s2_stmt] in Hs. rewrite s2_blk_fix' in Hs. apply andb_true_iff in Hs as [_ Hb].
-    destruct (nodoc_block body H Hb) as [A B]. cbn [docs_stmt strings_stmt]. rewrite A, B.
-    rewrite (container_nil body (s2_block_doc_of body Hb)). split; reflexivity.
+    destruct (nodoc_blocks2 body H Hb) as [A B]. cbn [docs_stmt strings_stmt]. rewrite B. split; [|reflexivity].
+    apply Forall_app'. apply container_plain. apply s2_block_doc_of. exact Hb. exact A.
   - (* SFor *) cbn [s2_stmt] in Hs. rewrite !s2_blk_fix' in Hs.
     apply andb_true_iff in Hs as [H123 H4]. apply andb_true_iff in H123 as [_ H3].
-    destruct (nodoc_block b H H3) as [A B]. destruct (nodoc_block o H0 H4) as [C D].
-    cbn [docs_stmt strings_stmt]. rewrite A, B, C, D. split; reflexivity.
+    destruct (nodoc_blocks2 b H H3) as [A B]. destruct (nodoc_blocks2 o H0 H4) as [C D].
+    cbn [docs_stmt strings_stmt]. rewrite B, D. split; [|reflexivity]. apply Forall_app'; assumption.
   - (* SWhile *) cbn [s2_stmt] in Hs. rewrite !s2_blk_fix' in Hs.
     apply andb_true_iff in Hs as [H12 H3]. apply andb_true_iff in H12 as [_ H2]. apply is_nil_true in H3. subst o.
-    destruct (nodoc_block b H H2) as [A B]. cbn [docs_stmt strings_stmt]. rewrite A, B. split; reflexivity.
+    destruct (nodoc_blocks2 b H H2) as [A B]. cbn [docs_stmt strings_stmt]. rewrite B. split; [|reflexivity]. apply Forall_app'. exact A. constructor.
   - (* SIf *) cbn [s2_stmt] in Hs. rewrite !s2_blk_fix' in Hs.
     apply andb_true_iff in Hs as [H12 H3]. apply andb_true_iff in H12 as [_ H2]. apply is_nil_true in H3. subst o.
-    destruct (nodoc_block b H H2) as [A B]. cbn [docs_stmt strings_stmt]. rewrite A, B. split; reflexivity.
+    destruct (nodoc_blocks2 b H H2) as [A B]. cbn [docs_stmt strings_stmt]. rewrite B. split; [|reflexivity]. apply Forall_app'. exact A. constructor.
   - (* SWith *) cbn [s2_stmt] in Hs. rewrite !s2_blk_fix' in Hs. apply andb_true_iff in Hs as [_ H2].
-    destruct (nodoc_block b H H2) as [A B]. cbn [docs_stmt strings_stmt]. rewrite A, B. split; reflexivity.
+    destruct (nodoc_blocks2 b H H2) as [A B]. cbn [docs_stmt strings_stmt]. rewrite B. split; [exact A|reflexivity].
   - (* STry *) cbn [s2_stmt] in Hs. rewrite !s2_blk_fix' in Hs.
     apply andb_true_iff in Hs as [Habc Hd]. apply andb_true_iff in Habc as [Hab Hc]. apply andb_true_iff in Hab as [Ha Hb].
     apply is_nil_true in Hb. subst hs.
-    destruct (nodoc_block b H Ha) as [A B]. destruct (nodoc_block o H1 Hc) as [C D]. destruct (nodoc_block f H2 Hd) as [E F].
-    cbn [docs_stmt strings_stmt]. rewrite A, B, C, D, E, F. split; reflexivity.
+    destruct (nodoc_blocks2 b H Ha) as [A B]. destruct (nodoc_blocks2 o H1 Hc) as [C D]. destruct (nodoc_blocks2 f H2 Hd) as [E F].
+    cbn [docs_stmt strings_stmt]. rewrite B, D, F. split; [|reflexivity]. cbn [app]. repeat apply Forall_app'; assumption.
+  - (* SDoc *) cbn [s2_stmt] in Hs. apply andb_true_iff in Hs as [H1 H2]. apply is_nil_true in H2. subst br.
+    split. constructor. reflexivity.
 Qed.
 
-Lemma s2_nodoc : forall p, s2_block p = true -> docstrings_of p = [] /\ brace_ids p = [].
+Lemma s2_nodoc : forall p, s2_block p = true -> Forall plain_doc (docstrings_of p) /\ brace_ids p = [].
 Proof.
-  intros p H. unfold docstrings_of, brace_ids. rewrite (container_nil p (s2_block_doc_of p H)). cbn [app].
-  induction p as [|x p IH]. split; reflexivity. cbn in H. apply andb_true_iff in H as [H1 H2].
-  destruct (nodoc_stmt x H1) as [A B]. destruct (IH H2) as [C D]. cbn [flat_map]. rewrite A, B, C, D. split; reflexivity.
+  intros p H. unfold docstrings_of, brace_ids. split.
+  - apply Forall_app'. apply container_plain. apply s2_block_doc_of. exact H.
+    induction p as [|x p IH]. constructor. cbn in H. apply andb_true_iff in H as [H1 H2]. cbn [flat_map].
+    apply Forall_app'. apply (nodoc_stmts2 x H1). apply IH. exact H2.
+  - induction p as [|x p IH]. reflexivity. cbn in H. apply andb_true_iff in H as [H1 H2]. cbn [flat_map].
+    rewrite (proj2 (nodoc_stmts2 x H1)), (IH H2). reflexivity.
 Qed.
 
-Lemma u2_s2_block : forall p, u2_block p = true -> s2_block p = true.
+Lemma u2_is_s2 : forall p, u2_block p = true -> s2_block p = true.
 Proof.
   induction p as [|x p IH]; intro H. reflexivity. cbn in H. apply andb_true_iff in H as [H1 H2].
   cbn. rewrite (proj1 (Stage2Erase.u2_top_split x H1)). apply IH. exact H2.
 Qed.
 
-(* the same with the report fix_unused_and_missing_imports uses (parse_docstrings=True) and the trace that includes the
-   doctest examples: a stage-2 program has no docstring statement, so both coincide with the above *)
 Theorem tidy_fix_preserves_trace_stage2 : forall bi ns p, u2_block p = true -> star_free bi ns = true ->
   imports_once bi ns p = true -> NoDup (imp_events (bsrcs_block false p)) ->
   let R := in_report (snd (finder_doc bi ns p)) in
   pysem_doc bi ns (remove_top R p) = pysem_doc bi ns p.
 Proof.
   intros bi ns p Hu Hsf Ho Hnd. cbv zeta.
-  destruct (s2_nodoc p (u2_s2_block p Hu)) as [Hd Hb].
-  rewrite (nodoc_finder bi ns p Hd Hb). unfold pysem_doc. rewrite docstrings_remove, Hd. cbn [flat_map]. rewrite !app_nil_r.
+  destruct (s2_nodoc p (u2_is_s2 p Hu)) as [Hd Hb].
+  rewrite (nodoc_finder bi ns p Hd Hb).
+  rewrite (nodoc_pysem bi ns p Hd). rewrite nodoc_pysem by (rewrite docstrings_remove; exact Hd).
   apply (tidy_remove_preserves_trace_stage2 bi ns p Hu Hsf Ho Hnd).
+Qed.
+
+(* ---------- stage 3 ---------- *)
+Lemma s3_doc_of : forall x, s3_stmt x = true -> Forall plain_doc (doc_of x) /\ (forall ln ex br, x = SDoc ln ex br -> br = []).
+Proof.
+  intros [] H; cbn [doc_of]; try (split; [constructor|intros; discriminate]).
+  cbn [s3_stmt] in H. apply andb_true_iff in H as [H1 H2]. apply is_nil_true in H1, H2. subst. split.
+  constructor. reflexivity. constructor. intros ln0 ex br E. injection E as _ _ <-. reflexivity.
+Qed.
+Lemma s3_block_doc_of : forall l, s3_block l = true -> Forall (fun x => Forall plain_doc (doc_of x)) l.
+Proof.
+  induction l as [|x l IH]; intro H. constructor. cbn in H. apply andb_true_iff in H as [H1 H2].
+  constructor. apply (s3_doc_of x H1). apply IH. exact H2.
+Qed.
+
+Definition NoDocs3 (x : stmt) : Prop := s3_stmt x = true -> Forall plain_doc (docs_stmt x) /\ strings_stmt x = [].
+Lemma nodoc_blocks3 : forall l, Forall NoDocs3 l -> s3_block l = true ->
+  Forall plain_doc ((fix nested (l : list stmt) : list docstring := match l with [] => [] | x :: r => docs_stmt x ++ nested r end) l) /\
+  (fix nested (l : list stmt) : list name := match l with [] => [] | x :: r => strings_stmt x ++ nested r end) l = [].
+Proof.
+  induction l as [|x l IH]; intros HF Hs. split. constructor. reflexivity.
+  inversion HF as [|? ? Hx HF']; subst. cbn in Hs. apply andb_true_iff in Hs as [H1 H2].
+  destruct (Hx H1) as [A B]. destruct (IH HF' H2) as [C D]. split. apply Forall_app'; assumption. rewrite B, D. reflexivity.
+Qed.
+Lemma s3_blk_fix' : forall l,
+  (fix blk (l : list stmt) : bool := match l with [] => true | y :: r => s3_stmt y && blk r end) l = s3_block l.
+Proof. reflexivity. Qed.
+
+Lemma nodoc_stmts3 : forall x, NoDocs3 x.
+Proof.
+  induction x using stmt_ind'; intro Hs; try (split; [constructor|reflexivity]); try discriminate.
+  - (* SDef *) cbn [s3_stmt] in Hs. rewrite s3_blk_fix' in Hs. apply andb_true_iff in Hs as [_ Hb].
+    destruct (nodoc_blocks3 body H Hb) as [A B]. cbn [docs_stmt strings_stmt]. rewrite B. split; [|reflexivity].
+    apply Forall_app'. apply container_plain. apply s3_block_doc_of. exact Hb. exact A.
+  - (* SFor *) cbn [s3_stmt] in Hs. rewrite !s3_blk_fix' in Hs.
+    apply andb_true_iff in Hs as [H123 H4]. apply andb_true_iff in H123 as [_ H3].
+    destruct (nodoc_blocks3 b H H3) as [A B]. destruct (nodoc_blocks3 o H0 H4) as [C D].
+    cbn [docs_stmt strings_stmt]. rewrite B, D. split; [|reflexivity]. apply Forall_app'; assumption.
+  - (* SWhile *) cbn [s3_stmt] in Hs. rewrite !s3_blk_fix' in Hs.
+    apply andb_true_iff in Hs as [H12 H3]. apply andb_true_iff in H12 as [_ H2]. apply is_nil_true in H3. subst o.
+    destruct (nodoc_blocks3 b H H2) as [A B]. cbn [docs_stmt strings_stmt]. rewrite B. split; [|reflexivity]. apply Forall_app'. exact A. constructor.
+  - (* SIf *) cbn [s3_stmt] in Hs. rewrite !s3_blk_fix' in Hs.
+    apply andb_true_iff in Hs as [H12 H3]. apply andb_true_iff in H12 as [_ H2]. apply is_nil_true in H3. subst o.
+    destruct (nodoc_blocks3 b H H2) as [A B]. cbn [docs_stmt strings_stmt]. rewrite B. split; [|reflexivity]. apply Forall_app'. exact A. constructor.
+  - (* SWith *) cbn [s3_stmt] in Hs. rewrite !s3_blk_fix' in Hs. apply andb_true_iff in Hs as [_ H2].
+    destruct (nodoc_blocks3 b H H2) as [A B]. cbn [docs_stmt strings_stmt]. rewrite B. split; [exact A|reflexivity].
+  - (* STry *) cbn [s3_stmt] in Hs. rewrite !s3_blk_fix' in Hs.
+    apply andb_true_iff in Hs as [Habc Hd]. apply andb_true_iff in Habc as [Hab Hc]. apply andb_true_iff in Hab as [Ha Hb].
+    apply is_nil_true in Hb. subst hs.
+    destruct (nodoc_blocks3 b H Ha) as [A B]. destruct (nodoc_blocks3 o H1 Hc) as [C D]. destruct (nodoc_blocks3 f H2 Hd) as [E F].
+    cbn [docs_stmt strings_stmt]. rewrite B, D, F. split; [|reflexivity]. cbn [app]. repeat apply Forall_app'; assumption.
+  - (* SDoc *) cbn [s3_stmt] in Hs. apply andb_true_iff in Hs as [H1 H2]. apply is_nil_true in H2. subst br.
+    split. constructor. reflexivity.
+Qed.
+
+Lemma s3_nodoc : forall p, s3_block p = true -> Forall plain_doc (docstrings_of p) /\ brace_ids p = [].
+Proof.
+  intros p H. unfold docstrings_of, brace_ids. split.
+  - apply Forall_app'. apply container_plain. apply s3_block_doc_of. exact H.
+    induction p as [|x p IH]. constructor. cbn in H. apply andb_true_iff in H as [H1 H2]. cbn [flat_map].
+    apply Forall_app'. apply (nodoc_stmts3 x H1). apply IH. exact H2.
+  - induction p as [|x p IH]. reflexivity. cbn in H. apply andb_true_iff in H as [H1 H2]. cbn [flat_map].
+    rewrite (proj2 (nodoc_stmts3 x H1)), (IH H2). reflexivity.
+Qed.
+
+Lemma u3_is_s3 : forall p, u3_block p = true -> s3_block p = true.
+Proof.
+  induction p as [|x p IH]; intro H. reflexivity. cbn in H. apply andb_true_iff in H as [H1 H2].
+  cbn. rewrite (proj1 (Stage3Erase.u3_top_split x H1)). apply IH. exact H2.
+Qed.
+
+Theorem tidy_fix_preserves_trace_stage3 : forall bi ns p, u3_block p = true -> star_free bi ns = true ->
+  imports_once bi ns p = true -> NoDup (imp_events (bsrcs_block false p)) ->
+  let R := in_report (snd (finder_doc bi ns p)) in
+  pysem_doc bi ns (remove_top R p) = pysem_doc bi ns p.
+Proof.
+  intros bi ns p Hu Hsf Ho Hnd. cbv zeta.
+  destruct (s3_nodoc p (u3_is_s3 p Hu)) as [Hd Hb].
+  rewrite (nodoc_finder bi ns p Hd Hb).
+  rewrite (nodoc_pysem bi ns p Hd). rewrite nodoc_pysem by (rewrite docstrings_remove; exact Hd).
+  apply (tidy_remove_preserves_trace_stage3 bi ns p Hu Hsf Ho Hnd).
 Qed.
